@@ -60,9 +60,10 @@ class YYToken(_YYToken):
             parts.append(str(self.lnk))
         parts.append(' '.join(map(str, self.paths or [1])))
         if self.surface is None:
-            parts.append(f'"{self.form}"')
+            parts.append(f'"{_escape(self.form)}"')
         else:
-            parts.append(f'"{self.form}" "{self.surface}"')
+            parts.append(
+                f'"{_escape(self.form)}" "{_escape(self.surface)}"')
         parts.extend([
             str(self.ipos),
             ' '.join(map('"{}"'.format, self.lrules))
@@ -113,6 +114,14 @@ class YYToken(_YYToken):
             d['tags'] = [ps[0] for ps in self.pos]
             d['probabilities'] = [ps[1] for ps in self.pos]
         return d
+
+
+def _escape(s: str) -> str:
+    return s.replace('\\', '\\\\').replace('"', '\\"')
+
+
+def _unescape(s: str) -> str:
+    return re.sub(r'\\(.)', r'\1', s, flags=re.DOTALL)
 
 
 # from: https://github.com/delph-in/docs/wiki/PetInput
@@ -173,8 +182,9 @@ class YYTokenLattice:
                     int(d['end']),
                     lnk,
                     list(map(int, d['paths'].strip().split())),
-                    _qstrip(d['form']),
-                    None if d['surface'] is None else _qstrip(d['surface']),
+                    _unescape(_qstrip(d['form'])),
+                    (None if d['surface'] is None
+                     else _unescape(_qstrip(d['surface']))),
                     int(d['ipos']),
                     list(map(_qstrip, d['lrules'].strip().split())),
                     pos
